@@ -2,7 +2,7 @@
 From Coq Require Import List NArith ZArith Bool.
 Import ListNotations.
 From Verif Require Import Base.Val gen.Tables_eapi gen.Tables_C03 C03.Model_C03 C03.Spec_C03 C03.Proofs_C03
-  C03.Version_C03 C03.UseDep_C03 C03.Grammar_C03.
+  C03.Version_C03 C03.UseDep_C03 C03.Grammar_C03 C03.Complete_C03.
 Local Open Scope N_scope.
 
 (* the gate table regenerated from eapi.py is exactly the PMS feature matrix for EAPI 0..9 and "no EAPI" *)
@@ -104,3 +104,22 @@ Theorem pkg_name_agree :
                valid_pkg_name (split_on c_dash name) = pms_pkg_name name.
 Proof. exact pkg_name_agree_proof. Qed.
 Print Assumptions pkg_name_agree.
+
+(* COMPLETENESS of acceptance (the other half of accept_iff_grammar, in full): every string the PMS
+   grammar recogniser accepts for an EAPI is accepted — for text without newline in which no
+   contiguous piece is a code-version ([m_version]) carrying an upper-case letter *)
+Theorem accept_complete_partial :
+  forall e n s,
+    pms_atom_b e s = true -> ~ In c_nl s -> no_upper_version s -> is_ok (parse_atom e n s) = true.
+Proof. exact accept_complete_proof. Qed.
+Print Assumptions accept_complete_partial.
+
+(* the first sentence of the property as an equivalence, outside the three recorded classes stated on
+   the INPUT: no newline; no contiguous piece that the code's version regex accepts with an upper-case
+   letter; no ":+" and no "/+" (a slot or sub-slot name beginning with "+") *)
+Theorem accept_iff_grammar_partial :
+  forall e n s,
+    ~ In c_nl s -> no_upper_version s -> no_plus_slot s ->
+    is_ok (parse_atom e n s) = pms_atom_b e s.
+Proof. exact accept_iff_grammar_partial_proof. Qed.
+Print Assumptions accept_iff_grammar_partial.
